@@ -21,6 +21,33 @@ theorem alloc_inline_capacity : Extracted.cacheInlineCap = 12 := by decide
     `argEvents (.direct _)`; `DeferredFormatCodec` never does in `compute_encoded_size` / `encode` -/
 theorem alloc_formatter_sites : Extracted.directFormatCalls = 2 ∧ Extracted.deferredFormatCalls = 0 := by decide
 
+/-- the budget of the size cache is the documented one: of the container families only `forward_list` takes a slot
+    (for its element count) — the extracted table *is* the table `C11_cstr_budget` / `C11_container_slots` speak about -/
+theorem alloc_count_slots :
+    Extracted.kindTable.map (fun p => (p.1, Codec.specKind p.1 p.2)) = Extracted.kindTable := by decide
+
+/-- `commit_read` publishes the reader position as soon as the queue is drained (an unguarded disjunct next to the
+    batch test, reached by the unbounded queue through its node's bounded queue), once per backend pass — the model's
+    `Queue.drain true` -/
+theorem alloc_drain_publishes :
+    Extracted.drainPublishes = true ∧ Extracted.commitReadPerPass = true ∧ 0 < Extracted.readerBatchPercent := by decide
+
+/-- C11 between log calls, for the code as extracted: after any history of the thread that ends with a backend pass
+    draining its queue, a statement of listed types with at most twelve cached lengths whose record does not exceed the
+    capacity of the thread's current buffer allocates nothing -/
+theorem C11_extracted_after_drain (fe : Codec.Frontend) (ops : List Codec.FOp) (args : List Codec.Arg) (dyn : Bool)
+    (h : Codec.wfL args = true) (hreg : fe.registered = true)
+    (hcache : (Codec.lensL args).length ≤
+      (Codec.Frontend.run Extracted.frame Extracted.drainPublishes Extracted.readerBatchPercent fe (ops ++ [.drain])).cache.cap)
+    (hfit : Codec.reserved Extracted.frame
+        (Codec.Frontend.run Extracted.frame Extracted.drainPublishes Extracted.readerBatchPercent fe (ops ++ [.drain])).cache args dyn ≤
+      (Codec.Frontend.run Extracted.frame Extracted.drainPublishes Extracted.readerBatchPercent fe (ops ++ [.drain])).queue.cap)
+    (hl : Codec.listedL args = true) :
+    (Codec.logCall Extracted.frame
+      (Codec.Frontend.run Extracted.frame Extracted.drainPublishes Extracted.readerBatchPercent fe (ops ++ [.drain])) args dyn).1 = [] := by
+  rw [alloc_drain_publishes.1] at hcache hfit ⊢
+  exact Codec.C11_no_events_after_drain Extracted.frame fe ops _ args dyn h hreg hcache hfit hl
+
 /-- C11 for the code as extracted: a registered thread whose size cache still has its inline capacity, at most twelve
     cached lengths, a fitting record, listed argument types ⇒ no allocation, no user code on the caller -/
 theorem C11_extracted (fe : Codec.Frontend) (args : List Codec.Arg) (dyn : Bool) (h : Codec.wfL args = true)
